@@ -476,7 +476,7 @@ pub fn check_ingest(seq: &[(u32, bool)], gap: u64, asynchronous: bool) -> Vec<Fi
 
 /// The real services under the real clock: a watcher (sync or tokio ServiceDiscovery) hears one
 /// announcement from a raw UDP peer (TTL 1, or TTL 120 with the cache-flush bit), lists it, and
-/// must have dropped it 1.8 s and 2.4 s after the announcement.
+/// must have dropped it 1.5 s and 2.1 s after the announcement.
 pub fn socket_expiry_case(k: usize, asynchronous: bool, flush: bool) -> Result<Vec<Finding>, String> {
     use std::time::{Duration, Instant};
     let svc = format!("_c20x{}{}{}._tcp.local", k, if asynchronous { "a" } else { "s" }, if flush { "f" } else { "t" });
@@ -526,7 +526,7 @@ pub fn socket_expiry_case(k: usize, asynchronous: bool, flush: bool) -> Result<V
             // whether an announced peer gets listed is C15's question; without a listing there is nothing to expire
             return Ok(bad);
         }
-        for at in [1800u64, 2400] {
+        for at in [1500u64, 2100] {
             let now = sent.elapsed();
             if now < Duration::from_millis(at) {
                 std::thread::sleep(Duration::from_millis(at) - now);
@@ -741,14 +741,10 @@ pub fn run(ctx: &Ctx) {
         let mut ran = 0u64;
         let mut why: Option<String> = if env_ok { None } else { Some("a raw socket joined to 224.0.0.251:5353 does not receive a datagram sent to the group from this host".to_string()) };
         if env_ok {
-            let handles: Vec<_> = [(false, false), (false, true), (true, false), (true, true)]
-                .into_iter()
-                .enumerate()
-                .map(|(k, (asy, flush))| std::thread::spawn(move || (k, socket_expiry_case(k, asy, flush))))
-                .collect();
+            // one after the other: traffic from a neighbouring case would make a watcher re-read its store
             let mut t = Tally::default();
-            for h in handles {
-                match h.join() {
+            for (k, (asy, flush)) in [(false, false), (false, true), (true, false), (true, true)].into_iter().enumerate() {
+                match std::thread::spawn(move || (k, socket_expiry_case(k, asy, flush))).join() {
                     Ok((_, Ok(f))) => {
                         ran += 1;
                         t.evals += 1;
@@ -764,7 +760,7 @@ pub fn run(ctx: &Ctx) {
             ctx.merge(t);
         }
         ctx.set_extra("socket_expiry_stage", json!({"ran": ran > 0, "cases": ran, "reason": why}));
-        ctx.space("real services, real clock: a sync and a tokio ServiceDiscovery each hear one announcement from a raw UDP peer (TTL 1; TTL 120 with the cache-flush bit), list the peer, and must have dropped it 1.8 s and 2.4 s later", ran, "complete for the four cases");
+        ctx.space("real services, real clock: a sync and a tokio ServiceDiscovery each hear one announcement from a raw UDP peer (TTL 1; TTL 120 with the cache-flush bit), list the peer, and must have dropped it 1.5 s and 2.1 s later", ran, "complete for the four cases");
     }
     // real-clock validation of the seam
     let traces = real_traces();
